@@ -8,15 +8,15 @@
   model's test (`modelReproduces`: `mergeListList src patch` succeeds with `.list dst`) on the entry-level patches
   that diffListList builds, and in particular for `modelReproduces` itself.
 
-  Differences between the Go code and the model, and the hypothesis `SpineOK dst` that bridges them (nothing is
-  needed of `src`):
+  The one difference between the Go code and the model, and the hypothesis `SpineOK dst` that bridges it (nothing
+  is needed of `src`):
   * Go stores the entries of the result map left to right (`ret[k] = v`), the model collects them from the right:
-    the same map exactly when the keys are pairwise distinct (`diff_dupkey_differs`);
-  * Go tests `v3 != nil` to see whether a child changed, so a child patch that IS nil (target value nil, base value a
-    scalar or `{}`) is dropped, while the model emits `k: null` (`diff_null_value_differs`).  At the root the two
-    cannot be told apart (`dresToGo (.patch .null) = dresToGo .same`), so the root itself may be nil.
-  `SpineOK dst`: every map of `dst` that is reached through maps only has pairwise distinct keys and no nil value.
-  It follows from `Val.WF dst` and `dst.nullFree` (bkld's inputs: evaluated documents).
+    the same map exactly when the keys are pairwise distinct (`diff_dupkey_differs`).
+  `SpineOK dst`: every map of `dst` that is reached through maps only has pairwise distinct keys.
+  It follows from `Val.WF dst` (maps strictly sorted by key: every Go map).
+  Nil values need no hypothesis: Go tests `v3 != nil` to see whether a child changed, so a child patch that IS nil
+  (target value nil, base value a scalar or `{}`) is dropped, and so does the model's `diffFields`
+  (`diff_null_value_agrees`, `diff_null_nested_agrees`).
 -/
 import Generated.Trans.Bkld
 import BklProofs.Lemmas.GoLib
@@ -81,14 +81,14 @@ theorem diffListListG_of_ok {reproduces : List Val → List Val → List Val →
 /-! ## the hypothesis -/
 
 mutual
-/-- every map of `v` that is reached through maps only has pairwise distinct keys and no nil value (lists are
-    opaque: their entries are only compared) -/
+/-- every map of `v` that is reached through maps only has pairwise distinct keys (lists are opaque: their
+    entries are only compared) -/
 def spineOKB : Val → Bool
   | .map kvs => decide (Fields.DistinctKeys kvs) && spineOKFieldsB kvs
   | _ => true
 def spineOKFieldsB : Fields → Bool
   | [] => true
-  | (_, v) :: rest => !v.isNull && spineOKB v && spineOKFieldsB rest
+  | (_, v) :: rest => spineOKB v && spineOKFieldsB rest
 end
 
 def SpineOK (v : Val) : Prop := spineOKB v = true
@@ -96,47 +96,47 @@ def SpineOK (v : Val) : Prop := spineOKB v = true
 instance (v : Val) : Decidable (SpineOK v) := by unfold SpineOK; infer_instance
 
 theorem spineOKFieldsB_iff {m : Fields} :
-    spineOKFieldsB m = true ↔ ∀ p ∈ m, p.2 ≠ .null ∧ SpineOK p.2 := by
+    spineOKFieldsB m = true ↔ ∀ p ∈ m, SpineOK p.2 := by
   induction m with
   | nil => simp [spineOKFieldsB]
   | cons hd tl ih =>
     obtain ⟨k, v⟩ := hd
-    have hn : (!v.isNull) = true ↔ v ≠ .null := by cases v <;> simp [Val.isNull]
-    simp only [spineOKFieldsB, Bool.and_eq_true, ih, List.mem_cons, forall_eq_or_imp, SpineOK, hn, and_assoc]
+    simp only [spineOKFieldsB, Bool.and_eq_true, ih, List.mem_cons, forall_eq_or_imp, SpineOK]
 
 theorem spineOK_map_iff {m : Fields} :
-    SpineOK (.map m) ↔ Fields.DistinctKeys m ∧ ∀ p ∈ m, p.2 ≠ .null ∧ SpineOK p.2 := by
+    SpineOK (.map m) ↔ Fields.DistinctKeys m ∧ ∀ p ∈ m, SpineOK p.2 := by
   simp only [SpineOK, spineOKB, Bool.and_eq_true, decide_eq_true_eq, spineOKFieldsB_iff]
 
 mutual
-theorem spineOK_of_wfB_nullFree : ∀ (v : Val), v.wfB = true → v.nullFree = true → spineOKB v = true
-  | .map kvs, h, hn => by
+theorem spineOK_of_wfB : ∀ (v : Val), v.wfB = true → spineOKB v = true
+  | .map kvs, h => by
     simp only [Val.wfB, Bool.and_eq_true] at h
-    simp only [Val.nullFree] at hn
     simp only [spineOKB, Bool.and_eq_true, decide_eq_true_eq]
-    exact ⟨distinctKeys_of_sorted (sortedKeysB_iff.1 h.1), spineOKFields_of_wfB_nullFree kvs h.2 hn⟩
-  | .list _, _, _ => rfl
-  | .null, _, _ => rfl
-  | .bool _, _, _ => rfl
-  | .int _, _, _ => rfl
-  | .flt _, _, _ => rfl
-  | .str _, _, _ => rfl
-theorem spineOKFields_of_wfB_nullFree : ∀ (m : Fields), Val.wfFieldsB m = true → Val.nullFreeFields m = true →
-    spineOKFieldsB m = true
-  | [], _, _ => rfl
-  | (_, v) :: rest, h, hn => by
+    exact ⟨distinctKeys_of_sorted (sortedKeysB_iff.1 h.1), spineOKFields_of_wfB kvs h.2⟩
+  | .list _, _ => rfl
+  | .null, _ => rfl
+  | .bool _, _ => rfl
+  | .int _, _ => rfl
+  | .flt _, _ => rfl
+  | .str _, _ => rfl
+theorem spineOKFields_of_wfB : ∀ (m : Fields), Val.wfFieldsB m = true → spineOKFieldsB m = true
+  | [], _ => rfl
+  | (_, v) :: rest, h => by
     simp only [Val.wfFieldsB, Bool.and_eq_true] at h
-    simp only [Val.nullFreeFields, Bool.and_eq_true] at hn
     simp only [spineOKFieldsB, Bool.and_eq_true]
-    exact ⟨⟨by rw [nullFree_isNull hn.1]; rfl, spineOK_of_wfB_nullFree v h.1 hn.1⟩,
-      spineOKFields_of_wfB_nullFree rest h.2 hn.2⟩
+    exact ⟨spineOK_of_wfB v h.1, spineOKFields_of_wfB rest h.2⟩
 end
 
-theorem SpineOK_of_WF_nullFree {v : Val} (h : Val.WF v) (hn : v.nullFree = true) : SpineOK v :=
-  spineOK_of_wfB_nullFree v h hn
+/-- every well-formed value (maps strictly sorted by key) qualifies, nil values or not -/
+theorem SpineOK_of_WF {v : Val} (h : Val.WF v) : SpineOK v :=
+  spineOK_of_wfB v h
+
+/-- kept under its old name; the nil-freeness is no longer needed (`SpineOK_of_WF`) -/
+theorem SpineOK_of_WF_nullFree {v : Val} (h : Val.WF v) (_hn : v.nullFree = true) : SpineOK v :=
+  SpineOK_of_WF h
 
 theorem SpineOK_of_plainVal {v : Val} (h : plainVal v = true) : SpineOK v :=
-  SpineOK_of_WF_nullFree (plainVal_wf h) (plainVal_nullFree h)
+  SpineOK_of_WF (plainVal_wf h)
 
 /-! ## replaceable, replaceList -/
 
@@ -232,7 +232,7 @@ def step1 (r : Val × Option Err) (sm : Fields) (kv : String × Val) (ret : Fiel
   | some v2 =>
     match diff kv.2 v2 with
     | .same => .ok (.next ret)
-    | .patch p => .ok (.next (fset ret kv.1 p))
+    | .patch p => .ok (.next (if p.isNull then ret else fset ret kv.1 p))
     | .replaceParent => .ok (.ret r)
 
 /-- the `range dst` loop: returns `r` if some child asks for it, else stores the per-key entries left to right -/
@@ -268,10 +268,17 @@ theorem mapMap_loop1 (r : Val × Option Err) (sm : Fields) (body : String × Val
         simp only [List.any_cons, List.filterMap_cons, he, hr, Bool.false_or]
       | patch p =>
         rw [hd] at hb
-        have he : diffEntry sm (k, v) = some (k, p) := by simp [diffEntry, hg, hd]
         have hr : diffRP sm (k, v) = false := by simp [diffRP, hg, hd]
-        rw [forRange_cons_next hb, ih']
-        simp only [List.any_cons, List.filterMap_cons, he, hr, Bool.false_or, fsetAll_cons]
+        cases hp : p.isNull with
+        | true =>
+          have he : diffEntry sm (k, v) = none := by simp [diffEntry, hg, hd, hp]
+          rw [forRange_cons_next hb, ih']
+          simp only [List.any_cons, List.filterMap_cons, he, hr, hp, Bool.false_or, if_true]
+        | false =>
+          have he : diffEntry sm (k, v) = some (k, p) := by simp [diffEntry, hg, hd, hp]
+          rw [forRange_cons_next hb, ih']
+          simp only [List.any_cons, List.filterMap_cons, he, hr, hp, Bool.false_or, fsetAll_cons,
+            Bool.false_eq_true, if_false]
       | replaceParent =>
         rw [hd] at hb
         have hr : diffRP sm (k, v) = true := by simp [diffRP, hg, hd]
@@ -303,7 +310,7 @@ theorem mapIndex2_snd (m : Fields) (k : String) : (Go.mapIndex2 m k).2 = fhas m 
 
 /-- diffMapMap, given that the recursive calls on the entries of `dst` are right -/
 theorem diffMapMap_step (reproduces : List Val → List Val → List Val → Bool) (fuel : Nat) (dm sm : Fields)
-    (hdist : Fields.DistinctKeys dm) (hnn : ∀ p ∈ dm, p.2 ≠ .null)
+    (hdist : Fields.DistinctKeys dm)
     (hall : ∀ k v, (k, v) ∈ dm → ∀ v2, diff' reproduces fuel v v2 = .ok (dresToGo (diff v v2))) :
     diffMapMap' reproduces (fuel + 1) dm sm = .ok (dresToGo (diff (.map dm) (.map sm))) := by
   unfold diffMapMap'
@@ -321,7 +328,6 @@ theorem diffMapMap_step (reproduces : List Val → List Val → List Val → Boo
         split <;> simp_all
   · rintro ⟨k, v⟩ hmem ret
     have hi := hall k v hmem
-    have hv : v ≠ .null := hnn (k, v) hmem
     simp only [Go.mapIndex2, step1]
     cases hg : fget sm k with
     | none => simp
@@ -330,8 +336,7 @@ theorem diffMapMap_step (reproduces : List Val → List Val → List Val → Boo
       cases hd : diff v v2 with
       | same => simp [dresToGo]
       | patch p =>
-        have hp : p ≠ .null := fun h => hv (diff_patch_null (by rw [hd, h]))
-        simp [dresToGo, hp]
+        cases p <;> simp [dresToGo, Val.isNull]
       | replaceParent => simp [dresToGo]
 
 /-! ## diff, diffMap: the cases that do not recurse -/
@@ -384,16 +389,16 @@ theorem diff_eq_aux (reproduces : List Val → List Val → List Val → Bool) (
         intro k v hm v2
         have := Go.depth_le_of_mem_fields hm
         simp only [Go.depth] at hd
-        exact ih v (by omega) (hw'.2 _ hm).2 v2 f (by omega)
-      have hmm := fun sm => diffMapMap_step reproduces f dm sm hw'.1 (fun p hp => (hw'.2 p hp).1) hall
+        exact ih v (by omega) (hw'.2 _ hm) v2 f (by omega)
+      have hmm := fun sm => diffMapMap_step reproduces f dm sm hw'.1 hall
       simp only [diff', diffMap_step reproduces (f + 1) dm s hmm]
     | _ => exact diff_nonmap reproduces hR _ _ s rfl
 
 /-! ## main theorems -/
 
 /-- diff.go:diff, as translated from the current source, is the model's `diff`: for every `reproduces` that answers
-    like the model, every target `dst` whose map spine has distinct keys and no nil values, every base `src`, given
-    fuel for the nesting depth of `dst` -/
+    like the model, every target `dst` whose map spine has distinct keys (nil values allowed), every base `src`,
+    given fuel for the nesting depth of `dst` -/
 theorem T_diff_eq_of (reproduces : List Val → List Val → List Val → Bool) (hR : ReproducesOK reproduces)
     (dst src : Val) (hw : SpineOK dst) (fuel : Nat) (h : 3 * Go.depth dst + 1 ≤ fuel) :
     diff' reproduces fuel dst src = .ok (dresToGo (diff dst src)) :=
@@ -403,11 +408,11 @@ theorem T_diff_eq_spine (dst src : Val) (hw : SpineOK dst) (fuel : Nat) (h : 3 *
     diff' modelReproduces fuel dst src = .ok (dresToGo (diff dst src)) :=
   T_diff_eq_of _ modelReproduces_ok dst src hw fuel h
 
-/-- for bkld's inputs (evaluated documents: well-formed, no nil) -/
-theorem T_diff_eq (dst src : Val) (hw : Val.WF dst) (hn : dst.nullFree = true) (fuel : Nat)
+/-- for every well-formed target (maps strictly sorted by key: every Go map; in particular bkld's inputs) -/
+theorem T_diff_eq (dst src : Val) (hw : Val.WF dst) (fuel : Nat)
     (h : 3 * Go.depth dst + 1 ≤ fuel) :
     diff' modelReproduces fuel dst src = .ok (dresToGo (diff dst src)) :=
-  T_diff_eq_spine dst src (SpineOK_of_WF_nullFree hw hn) fuel h
+  T_diff_eq_spine dst src (SpineOK_of_WF hw) fuel h
 
 /-- diff.go:diffMapMap is the model's `diff` on two maps -/
 theorem T_diffMapMap_eq_of (reproduces : List Val → List Val → List Val → Bool) (hR : ReproducesOK reproduces)
@@ -415,20 +420,20 @@ theorem T_diffMapMap_eq_of (reproduces : List Val → List Val → List Val → 
     diffMapMap' reproduces fuel dst src = .ok (dresToGo (diff (.map dst) (.map src))) := by
   obtain ⟨f, rfl⟩ : ∃ f, fuel = f + 1 := ⟨fuel - 1, by omega⟩
   have hw' := spineOK_map_iff.1 hw
-  refine diffMapMap_step reproduces f dst src hw'.1 (fun p hp => (hw'.2 p hp).1) ?_
+  refine diffMapMap_step reproduces f dst src hw'.1 ?_
   intro k v hm v2
   have := Go.depth_le_of_mem_fields hm
-  exact diff_eq_aux reproduces hR (Go.depthFields dst) v this (hw'.2 _ hm).2 v2 f (by omega)
+  exact diff_eq_aux reproduces hR (Go.depthFields dst) v this (hw'.2 _ hm) v2 f (by omega)
 
 theorem T_diffMapMap_eq_spine (dst src : Fields) (hw : SpineOK (.map dst)) (fuel : Nat)
     (h : 3 * Go.depthFields dst + 2 ≤ fuel) :
     diffMapMap' modelReproduces fuel dst src = .ok (dresToGo (diff (.map dst) (.map src))) :=
   T_diffMapMap_eq_of _ modelReproduces_ok dst src hw fuel h
 
-theorem T_diffMapMap_eq (dst src : Fields) (hw : Val.WF (.map dst)) (hn : (Val.map dst).nullFree = true)
+theorem T_diffMapMap_eq (dst src : Fields) (hw : Val.WF (.map dst))
     (fuel : Nat) (h : 3 * Go.depthFields dst + 2 ≤ fuel) :
     diffMapMap' modelReproduces fuel dst src = .ok (dresToGo (diff (.map dst) (.map src))) :=
-  T_diffMapMap_eq_spine dst src (SpineOK_of_WF_nullFree hw hn) fuel h
+  T_diffMapMap_eq_spine dst src (SpineOK_of_WF hw) fuel h
 
 /-- diff.go:diffMap is the model's `diff` on a map target -/
 theorem T_diffMap_eq_of (reproduces : List Val → List Val → List Val → Bool) (hR : ReproducesOK reproduces)
@@ -444,20 +449,19 @@ theorem T_diffMap_eq_spine (dst : Fields) (src : Val) (hw : SpineOK (.map dst)) 
     diffMap' modelReproduces fuel dst src = .ok (dresToGo (diff (.map dst) src)) :=
   T_diffMap_eq_of _ modelReproduces_ok dst src hw fuel h
 
-theorem T_diffMap_eq (dst : Fields) (src : Val) (hw : Val.WF (.map dst)) (hn : (Val.map dst).nullFree = true)
+theorem T_diffMap_eq (dst : Fields) (src : Val) (hw : Val.WF (.map dst))
     (fuel : Nat) (h : 3 * Go.depth (.map dst) ≤ fuel) :
     diffMap' modelReproduces fuel dst src = .ok (dresToGo (diff (.map dst) src)) :=
-  T_diffMap_eq_spine dst src (SpineOK_of_WF_nullFree hw hn) fuel h
+  T_diffMap_eq_spine dst src (SpineOK_of_WF hw) fuel h
 
 /-! ## non-vacuity, and the hypotheses are needed -/
 
-/-- non-trivial instances of the hypotheses: distinct keys need not be in order, the root and the entries of lists may
-    be nil or arbitrary -/
-example : SpineOK (.map [("b", .map [("y", .int 1), ("x", .str "s")]),
+/-- non-trivial instances of the hypotheses: distinct keys need not be in order, map values, the root and the entries
+    of lists may be nil, the entries of lists arbitrary -/
+example : SpineOK (.map [("b", .map [("y", .int 1), ("x", .str "s"), ("n", .null)]),
     ("a", .list [.null, .map [("z", .null), ("z", .null)]])]) := by decide
 example : SpineOK .null := by decide
-example : Val.WF (.map [("a", .map [("x", .int 1)]), ("b", .list [.int 1])]) ∧
-    (Val.map [("a", .map [("x", .int 1)]), ("b", .list [.int 1])]).nullFree = true := by decide
+example : Val.WF (.map [("a", .map [("x", .int 1), ("y", .null)]), ("b", .list [.int 1])]) := by decide
 
 /-- a repeated key in the target (not a Go map): Go's `ret[k] = v` keeps the last entry, the model the first -/
 theorem diff_dupkey_differs (reproduces : List Val → List Val → List Val → Bool) :
@@ -473,33 +477,50 @@ theorem diff_dupkey_differs (reproduces : List Val → List Val → List Val →
     simp [diff', diffMap', diffMapMap', forRange, Go.mapIndex2, fget, fset, diff, diffFields, fsetAll, dresToGo]
 
 /-- a nil value in the target over a scalar in the base: Go takes the nil child patch for "no change" and emits
-    nothing, the model emits `a: null` -/
-theorem diff_null_value_differs (reproduces : List Val → List Val → List Val → Bool) :
+    nothing, and so does the model — both answer "no difference" (the hypothesis of `T_diff_eq` holds) -/
+theorem diff_null_value_agrees (reproduces : List Val → List Val → List Val → Bool) :
     let dst : Val := .map [("a", .null)]
     let src : Val := .map [("a", .int 1)]
-    Fields.SortedKeys [("a", Val.null)] ∧ ¬ SpineOK dst ∧
-      ∀ fuel, 3 * Go.depth dst + 1 ≤ fuel → diff' reproduces fuel dst src = .ok (.null, none) ∧
-        diff dst src = .patch (.map [("a", .null)]) := by
-  refine ⟨by decide, by decide, ?_⟩
+    Val.WF dst ∧ SpineOK dst ∧ diff dst src = .same ∧
+      ∀ fuel, 3 * Go.depth dst + 1 ≤ fuel →
+        diff' reproduces fuel dst src = .ok (.null, none) ∧
+        diff' reproduces fuel dst src = .ok (dresToGo (diff dst src)) := by
+  have hm : diff (.map [("a", .null)]) (.map [("a", .int 1)]) = .same := by
+    simp [diff, diffFields, replaceable, fget, fsetAll, fhas, Val.isNull]
+  refine ⟨by decide, by decide, hm, ?_⟩
   intro fuel hf
   simp only [Go.depth, Go.depthFields] at hf
   obtain ⟨f, rfl⟩ : ∃ f, fuel = f + 4 := ⟨fuel - 4, by omega⟩
-  constructor
-  · simp [diff', diffMap', diffMapMap', replaceable', forRange, Go.mapIndex2, fget]
-  · simp [diff, diffFields, replaceable, fget, fset, fsetAll, fhas]
+  have hg : diff' reproduces (f + 4) (.map [("a", .null)]) (.map [("a", .int 1)]) = .ok (.null, none) := by
+    simp [diff', diffMap', diffMapMap', replaceable', forRange, Go.mapIndex2, fget]
+  exact ⟨hg, by rw [hg, hm]; rfl⟩
 
-/-- the same one level down: the hypothesis is needed along the whole map spine -/
-theorem diff_null_nested_differs (reproduces : List Val → List Val → List Val → Bool) :
+/-- the same one level down: model and translation agree ("no difference") along the whole map spine -/
+theorem diff_null_nested_agrees (reproduces : List Val → List Val → List Val → Bool) :
     let dst : Val := .map [("k", .map [("a", .null)])]
     let src : Val := .map [("k", .map [("a", .int 1)])]
-    ¬ SpineOK dst ∧
-      ∀ fuel, 3 * Go.depth dst + 1 ≤ fuel → diff' reproduces fuel dst src ≠ .ok (dresToGo (diff dst src)) := by
-  refine ⟨by decide, ?_⟩
+    Val.WF dst ∧ SpineOK dst ∧ diff dst src = .same ∧
+      ∀ fuel, 3 * Go.depth dst + 1 ≤ fuel →
+        diff' reproduces fuel dst src = .ok (.null, none) ∧
+        diff' reproduces fuel dst src = .ok (dresToGo (diff dst src)) := by
+  have hm : diff (.map [("k", .map [("a", .null)])]) (.map [("k", .map [("a", .int 1)])]) = .same := by
+    simp [diff, diffFields, replaceable, fget, fsetAll, fhas, Val.isNull]
+  refine ⟨by decide, by decide, hm, ?_⟩
   intro fuel hf
   simp only [Go.depth, Go.depthFields] at hf
   obtain ⟨f, rfl⟩ : ∃ f, fuel = f + 7 := ⟨fuel - 7, by omega⟩
-  simp [diff', diffMap', diffMapMap', replaceable', forRange, Go.mapIndex2, fget, fset, diff, diffFields, replaceable,
-    fsetAll, fhas, dresToGo]
+  have hg : diff' reproduces (f + 7) (.map [("k", .map [("a", .null)])]) (.map [("k", .map [("a", .int 1)])]) =
+      .ok (.null, none) := by
+    simp [diff', diffMap', diffMapMap', replaceable', forRange, Go.mapIndex2, fget]
+  exact ⟨hg, by rw [hg, hm]; rfl⟩
+
+/-- a nil value under a key that the base does not have is emitted as it is, by both (an instance of `T_diff_eq`) -/
+example : diff (.map [("a", .null)]) (.map []) = .patch (.map [("a", .null)]) ∧
+    diff' modelReproduces 4 (.map [("a", .null)]) (.map []) = .ok (.map [("a", .null)], none) := by
+  have hm : diff (.map [("a", .null)]) (.map []) = .patch (.map [("a", .null)]) := by
+    simp [diff, diffFields, fget, fset, fsetAll]
+  refine ⟨hm, ?_⟩
+  rw [T_diff_eq _ _ (by decide) 4 (by decide), hm]; rfl
 
 /-- `reproduces` matters: a test that always answers yes accepts the empty patch for a reordered list, bkl's merge
     (the model's test) does not -/
